@@ -254,6 +254,107 @@ def centre_sites(run, db, rule='C04.centre', only=None):
     centre_site('prysm.interferogram.Interferogram.recenter', lambda d: {}, ['r', 'c'], ['r', 'c'], select=mkself)
 
 
+def richdata_slices_rules(run, db):
+    """RichData.slices(): the Slices object is handed the data, the x axis (a row of the x grid, or the x vector) and the y axis (a
+    column of the y grid, or the y vector), whether or not the grids have been built already.  Interpreted with tokens; make_xy_grid is
+    summarised by its contract (returns (x, y); with grid=False the two axis vectors)."""
+    from ..core.interp import Interp, Domain, Value, Const, Tup, Unknown, Obj
+    from .common import bind_call
+    fi = db.func('prysm._richdata.RichData.slices')
+    ci = db.cls('prysm._richdata.RichData')
+    sci = db.cls('prysm._richdata.Slices')
+    init = db.method(sci, '__init__')
+
+    class T(Value):
+        def __init__(self, kind, axis=None):
+            self.kind, self.axis = kind, axis
+
+        def __repr__(self):
+            return {'grid': 'the 2-D %s grid', 'vec': 'the %s axis vector', 'flat': 'a constant vector taken across the %s grid', 'data': 'the data%s'}[self.kind] % (self.axis or '')
+
+    class D(Domain):
+        def __init__(self):
+            self.made = []
+
+        def call_prysm(self, f_, args, kw, node):
+            if f_.name == 'make_xy_grid':
+                b = bind_call(f_, args, kw)
+                g = b.get('grid', Const(True))
+                if not isinstance(g, Const):
+                    return Unknown('make_xy_grid with an unknown grid flag')
+                k = 'grid' if g.v else 'vec'
+                return Tup([T(k, 'x'), T(k, 'y')])
+            if f_.module is not fi.module:
+                return Unknown(f_.name)
+            return None
+
+        def subscript(self, v, idx, node):
+            if isinstance(v, T) and v.kind == 'grid':
+                items = idx.items if isinstance(idx, Tup) else [idx]
+                full = lambda z: type(z).__name__ == 'Slice' or (isinstance(z, Const) and z.v is Ellipsis)
+                zero = lambda z: isinstance(z, Const) and z.v == 0 and z.v is not False
+                if len(items) == 1 and zero(items[0]) or (len(items) == 2 and zero(items[0]) and full(items[1])):
+                    return T('vec' if v.axis == 'x' else 'flat', v.axis)        # a row
+                if len(items) == 2 and full(items[0]) and zero(items[1]):
+                    return T('vec' if v.axis == 'y' else 'flat', v.axis)        # a column
+                return Unknown('part of a grid')
+            return None
+
+        def instantiate(self, c_, args, kw, node):
+            if c_ is sci:
+                self.made.append((bind_call(init, args, kw), node))
+                return Unknown('Slices')
+            return None
+
+        def getattr(self, v, name, node):
+            return None
+    problems, n = [], 0
+    for label, pre in (('before the grids are built', lambda: (Const(None), Const(None))), ('with the grids cached', lambda: (T('grid', 'x'), T('grid', 'y')))):
+        dom = D()
+        it = Interp(db, dom)
+
+        def mkself():
+            o = Obj(ci)
+            x0, y0 = pre()
+            o.attrs.update({'data': T('data'), '_x': x0, '_y': y0, 'dx': Unknown('dx'), '_default_twosided': Unknown('twosided')})
+            return o
+        res = [p for p in it.run(fi, kwargs=lambda: {'twosided': Unknown('twosided')}, self_obj=mkself) if p.outcome == 'return']
+        if not res or not dom.made:
+            raise AnalysisError('RichData.slices: no Slices object is made (%s)' % label)
+        for b, node in dom.made:
+            n += 1
+            for par, want in (('x', 'x'), ('y', 'y')):
+                v = b.get(par)
+                if isinstance(v, T) and v.kind == 'vec' and v.axis == want:
+                    continue
+                if isinstance(v, T):
+                    problems.append('%s, the %s axis handed to Slices is %r' % (label, par, v))
+                else:
+                    raise AnalysisError('RichData.slices: the %s argument of Slices is not followed (%r)' % (par, v))
+            if not (isinstance(b.get('data'), T) and b['data'].kind == 'data'):
+                raise AnalysisError('RichData.slices: the data argument of Slices is not followed (%r)' % (b.get('data'),))
+    # the x / y properties themselves: x is the first result of make_xy_grid, y the second, whichever is asked for first
+    for nm in ('x', 'y'):
+        pf = db.func('prysm._richdata.RichData.' + nm)
+        dom = D()
+        it = Interp(db, dom)
+
+        def mkself2():
+            o = Obj(ci)
+            o.attrs.update({'data': T('data'), '_x': Const(None), '_y': Const(None), 'dx': Unknown('dx')})
+            return o
+        for p_ in it.run(pf, self_obj=mkself2):
+            if p_.outcome != 'return':
+                continue
+            v = p_.value
+            if not isinstance(v, T):
+                raise AnalysisError('RichData.%s: the returned value is not followed (%r)' % (nm, v))
+            run.check(v.kind == 'grid' and v.axis == nm, 'C04.who', pf.qual, 'which result of make_xy_grid', 'RichData.%s is the %s grid make_xy_grid returns' % (nm, nm),
+                      'RichData.%s returns %r' % (nm, v), pf.loc())
+    run.check(not problems, 'C04.slices', fi.qual, 'axes handed to Slices', 'Slices receives the data with the x axis vector as x and the y axis vector as y, before and after the grids are cached (%d constructions)' % n,
+              'RichData.slices: %s -- the slices miss the origin row / column and carry the wrong coordinates for non-square data' % '; '.join(sorted(set(problems))), fi.loc())
+
+
 def check(run, db, tier):
     run.trust('INDEX domain: lengths n=2a+p, //2 / ceil(./2) / floor(./2) exact on integer-affine forms per parity class (sa/domains/index.py)',
               'origin convention: the origin of an axis of length n is index n//2 (prysm/fttools.py fftrange docstring and property C04)')
@@ -498,6 +599,7 @@ def check(run, db, tier):
                 a0 = ast.unparse(n.value.args[0]) if n.value.args else ''
                 run.check(a0 == 'self.data.shape', 'C04.who', fi.qual, 'grid shape', 'grid built from the data shape', 'grid built from %s' % a0, fi.loc(n))
 
+    run.group(richdata_slices_rules, run, db)
     from .c01 import fresh_rules
     run.group(fresh_rules, run, db, 'C04.range')
     run.require_instances("C04.pad", 64)
